@@ -269,6 +269,34 @@ impl World {
     pub fn set_attach_hook(&self, h: Option<AttachHook>) {
         *self.attach_hook.lock().unwrap_or_else(|e| e.into_inner()) = h;
     }
+    /// a push from upstream nested in a delivery: the latest live instance of puppet `k mod n` that belongs to
+    /// subscription `owner` emits its next item (or its end) now
+    pub fn poke(&self, owner: u8, k: u8) {
+        let target = {
+            let mut g = self.lock();
+            let n = g.pup_drivers.len();
+            if n == 0 {
+                None
+            } else {
+                let p = k as usize % n;
+                let inst = g.pups[p].iter().enumerate().rev().find(|(_, st)| st.owner == owner && st.live()).map(|(i, _)| i);
+                match (inst, g.pup_drivers[p].clone()) {
+                    (Some(i), Some(d)) => {
+                        let prev = std::mem::replace(&mut g.cur_tag, owner);
+                        Some((i, d, prev))
+                    }
+                    _ => {
+                        g.skipped_by_guard += 1;
+                        None
+                    }
+                }
+            }
+        };
+        if let Some((i, d, prev)) = target {
+            d.act(i, PAct::Emit);
+            self.lock().cur_tag = prev;
+        }
+    }
     /// attach probe `s` now if it is free (never attached, or its last subscription is over)
     pub fn attach_if_free(&self, s: usize) -> bool {
         let free = {
@@ -662,7 +690,7 @@ impl<T: ToVal + Send + Sync + 'static> Probe<T> {
                 };
                 if let Message::Handshake(tb) = message {
                     let mut slot = me.tb.lock().unwrap_or_else(|e| e.into_inner());
-                    if slot[sub].is_none() {
+                    if slot[sub].is_none() && !me.spec.forget_tb {
                         slot[sub] = Some(tb);
                     }
                 }
@@ -689,39 +717,7 @@ impl<T: ToVal + Send + Sync + 'static> Probe<T> {
                         me.do_send(sub, SendKind::Pull, true);
                         me.do_send(sub, SendKind::Error, true);
                     }
-                    React::Poke(k) => {
-                        // a push from upstream nested in this delivery: the latest live instance of that
-                        // puppet belonging to this probe's own subscription emits its next item now
-                        let target = {
-                            let mut g = me.world.lock();
-                            let n = g.pup_drivers.len();
-                            if n == 0 {
-                                None
-                            } else {
-                                let p = k as usize % n;
-                                let inst = g.pups[p]
-                                    .iter()
-                                    .enumerate()
-                                    .rev()
-                                    .find(|(_, st)| st.owner == me.id && st.live())
-                                    .map(|(i, _)| i);
-                                match (inst, g.pup_drivers[p].clone()) {
-                                    (Some(i), Some(d)) => {
-                                        let prev = std::mem::replace(&mut g.cur_tag, me.id);
-                                        Some((i, d, prev))
-                                    }
-                                    _ => {
-                                        g.skipped_by_guard += 1;
-                                        None
-                                    }
-                                }
-                            }
-                        };
-                        if let Some((i, d, prev)) = target {
-                            d.act(i, PAct::Emit);
-                            me.world.lock().cur_tag = prev;
-                        }
-                    }
+                    React::Poke(k) => me.world.poke(me.id, k),
                     React::DisposeOther | React::Switch => {
                         let (other, n) = {
                             let g = me.world.lock();
@@ -771,12 +767,20 @@ impl<T: ToVal + Send + Sync + 'static> Probe<T> {
     }
 
     fn do_send(&self, sub: usize, kind: SendKind, reaction: bool) {
+        if self.spec.forget_tb {
+            // this listener dropped its talkback: it cannot send anything
+            if !reaction {
+                self.world.lock().skipped_by_guard += 1;
+            }
+            return;
+        }
         let ok = {
             let mut g = self.world.lock();
             let st = &mut g.sinks[self.id as usize][sub];
             let mut ok = st.greeted && ((!st.sent_terminal && !st.got_terminal) || self.spec.rogue);
-            // C15's quantifier is "every pattern of Pull": a sink that keeps pulling after the end
-            if !ok && kind == SendKind::Pull && self.spec.pull_after_end && st.greeted && !st.sent_terminal {
+            // C15's quantifier is "every pattern of Pull / dispose": a sink that keeps pulling after the end, or
+            // after its own disposal ("does nothing once disposed" can only be observed by asking again)
+            if !ok && kind == SendKind::Pull && self.spec.pull_after_end && st.greeted {
                 ok = true;
             }
             if ok && kind == SendKind::Pull && self.spec.credit && st.pulls_sent >= st.msgs {
@@ -1357,8 +1361,15 @@ pub fn run(sc: &Scenario) -> History {
             SinkKind::ForEach => guarded(&world, usize::MAX, 0, &|| {
                 let w = Arc::clone(&world);
                 let Root::I(src) = &*root else { unreachable!() };
+                // the user's closure may push into its own source (a subject fed or completed from the handler)
+                let react = sc.sinks.first().map(|s| s.react.clone()).unwrap_or_default();
+                let calls = Arc::new(std::sync::atomic::AtomicUsize::new(0));
                 callbag::for_each(move |x: i64| {
                     w.call(CallKind::ForEachF, 0, vec![Val::I(x)], None);
+                    let k = calls.fetch_add(1, std::sync::atomic::Ordering::Relaxed);
+                    if let Some(React::Poke(p)) = react.get(k) {
+                        w.poke(0, *p);
+                    }
                 })(tap(&world, 255, Arc::clone(src)));
             }),
         };
